@@ -12,9 +12,8 @@ mod urlt;
 #[macro_use]
 mod http;
 mod dbg;
+mod watch;
 
-use std::io::{BufRead, Write};
-use std::panic::{catch_unwind, AssertUnwindSafe};
 
 fn run_line(line: &str) -> String {
     let ws: Vec<&str> = line.split(' ').collect();
@@ -46,24 +45,14 @@ fn run_line(line: &str) -> String {
     }
 }
 
-fn main() {
-    std::panic::set_hook(Box::new(|_| {}));
-    let stdin = std::io::stdin();
-    let stdout = std::io::stdout();
-    let mut out = std::io::BufWriter::new(stdout.lock());
-    for line in stdin.lock().lines() {
-        let line = line.unwrap();
-        let res = catch_unwind(AssertUnwindSafe(|| run_line(&line)));
-        let s = match res {
-            Ok(s) => s,
-            Err(e) => {
-                if e.downcast_ref::<proto::Exhausted>().is_some() {
-                    "EXHAUSTED".to_string()
-                } else {
-                    "PANIC".to_string()
-                }
-            }
-        };
-        writeln!(out, "{}", s).unwrap();
+fn panic_text(e: Box<dyn std::any::Any + Send>) -> String {
+    if e.downcast_ref::<proto::Exhausted>().is_some() {
+        "EXHAUSTED".to_string()
+    } else {
+        "PANIC".to_string()
     }
+}
+
+fn main() {
+    watch::serve(run_line, panic_text);
 }
